@@ -344,3 +344,101 @@ func siteAllowed(p *Program, e *allowEntry, s ErrSite) bool {
 	}
 	return true
 }
+
+// checkDeferredOverwrite: a deferred closure that assigns the function's
+// error result must look at the current value first (`if err != nil { err =
+// wrap(err) }`, `if cerr := f.Close(); err == nil { err = cerr }`), otherwise
+// the error being returned is replaced and lost.
+func checkDeferredOverwrite(p *Program, r *Result, pkgs []string) {
+	n := 0
+	for _, fn := range p.Funcs {
+		if !inPkg(fn, pkgs...) || fn.Parent() == nil {
+			continue
+		}
+		par := fn.Parent()
+		// is fn deferred in its parent?
+		deferred := false
+		for _, c := range callsIn(par) {
+			if d, ok := c.(*ssa.Defer); ok {
+				if mc, ok := d.Call.Value.(*ssa.MakeClosure); ok && mc.Fn == fn {
+					deferred = true
+				}
+			}
+		}
+		if !deferred {
+			continue
+		}
+		tb := p.TB(fn)
+		for _, b := range fn.Blocks {
+			for _, in := range b.Instrs {
+				st, ok := in.(*ssa.Store)
+				if !ok {
+					continue
+				}
+				fv, ok := st.Addr.(*ssa.FreeVar)
+				if !ok || !isErrorType(fv.Type().(*types.Pointer).Elem()) {
+					continue
+				}
+				n++
+				// guarded by a test of the same cell?
+				facts := tb.FactsAt(b)
+				_, guarded := findFact(facts, func(a Atom) bool {
+					if a.Kind != "cmp" || a.Y.Op != "Nil" {
+						return false
+					}
+					ld, isLd := a.X.V.(*ssa.UnOp)
+					return isLd && ld.X == ssa.Value(fv)
+				})
+				r.Check(guarded, fn.String(), "defer-assigns:"+fv.Name(), r.pos(st), "the deferred assignment to the error result is conditional on its current value", "a deferred closure overwrites the function's error result unconditionally: the error being returned (e.g. a failed flush) is lost")
+			}
+		}
+	}
+	_ = n
+}
+
+// checkSourceErrorsWrapped: an error obtained from reading the source that is
+// put into a new error with fmt.Errorf must be wrapped with %w, so that typed
+// errors of lower layers (*armor.Error) stay reachable with errors.As.
+func checkSourceErrorsWrapped(p *Program, r *Result, pkgs []string) {
+	readers := map[string]bool{}
+	for k := range sourceReads {
+		readers[k] = true
+	}
+	readers[pkgFormat+".Parse"] = true
+	readers["(*"+pkgFormat+".StanzaReader).ReadStanza"] = true
+	for _, fn := range p.Funcs {
+		if !inPkg(fn, pkgs...) {
+			continue
+		}
+		tb := p.TB(fn)
+		for i, c := range callsIn(fn) {
+			name := tb.resolvedCalleeName(c.Common())
+			if name != "fmt.Errorf" && name != pkgFormat+".errorf" {
+				continue
+			}
+			k, isK := c.Common().Args[0].(*ssa.Const)
+			if !isK {
+				continue
+			}
+			format := k.Value.ExactString()
+			t := tb.Term(c.Common().Args[1])
+			fromSource := false
+			for _, sub := range t.Find("Ext") {
+				if call, ok := sub.Args[0].V.(*ssa.Call); ok && readers[tb.resolvedCalleeName(&call.Call)] && isErrorType(sub.V.Type()) {
+					// Peek(Buffered()) only looks at bytes already buffered: it reads nothing
+					if tb.resolvedCalleeName(&call.Call) == "(*bufio.Reader).Peek" {
+						if bc, ok := call.Call.Args[1].(*ssa.Call); ok && calleeName(&bc.Call) == "(*bufio.Reader).Buffered" {
+							continue
+						}
+					}
+					fromSource = true
+				}
+			}
+			if !fromSource {
+				continue
+			}
+			_ = i
+			r.Check(strings.Contains(format, "%w"), fn.String(), "wrap-source-error:"+strings.Trim(strings.SplitN(format, ":", 2)[0], `"`), r.pos(c), "source error wrapped with %w", "an error from reading the source is formatted with "+format+" without %w: the armor error type (and io.ErrUnexpectedEOF etc.) is no longer reachable through errors.As/Is")
+		}
+	}
+}
